@@ -23,6 +23,8 @@ def variants(dl, rnd, all_variants):
 def signature(diff):
     """classify a disagreement for the known-findings file"""
     impl, desc, name, exp, got = diff
+    if impl == "vhdl-signal":
+        return "signal-collision"
     toks = desc.split()
     if exp == 1 and got == 0:
         # which descriptor should have matched?
@@ -134,6 +136,11 @@ def static_resolution(vecs, names, wd, tier, rnd):
             continue
         # escapeMacro maps some different names to one signal (a.b.ab / ab.a.b): only names with a signal of their own are judged
         cnt = collections.Counter(best.values())
+        if k == 0:
+            # reported once per run: different event names that share one signal cannot be told apart by the circuit
+            for sg, c_ in sorted(cnt.items()):
+                if c_ > 1:
+                    diffs.append(("vhdl-signal", sg, "=".join(sorted(nm for nm, s2 in best.items() if s2 == sg)), 0, 1))
         inv = {sg: nm for nm, sg in best.items() if cnt[sg] == 1}
         judged = set(inv.values())
         got = set(inv[x] for x in sigs if x in inv)
